@@ -558,6 +558,62 @@ def real_phase(chk: Check, tier: str, work: Path):
                       {"pids": [p.pid for p in left]})
 
 
+def registry_phase(chk: Check):
+    """The exit-time shutdown request goes through the process-wide registry: FunctionContext registers the executor of
+    every test (`ExecutorRegistry().register(..)`), `on_exit` and the signal handler call `ExecutorRegistry().shutdown_all()`
+    - each through a fresh `ExecutorRegistry()` expression.  For every registered executor this is the model's
+    shutdown(wait=False): flag set, running solvers killed, results delivered, later submissions refused."""
+    import sys
+
+    from halmos.processes import ExecutorRegistry, PopenExecutor, PopenFuture, ShutdownError
+
+    exs = [PopenExecutor(), PopenExecutor()]
+    for e in exs:
+        ExecutorRegistry().register(e)
+    futs = []
+    for e in exs:
+        f = PopenFuture([sys.executable, "-c", "import time; time.sleep(120)"], timeout=None)
+        e.submit(f)
+        futs.append(f)
+    t0 = time.time()
+    while time.time() - t0 < 10 and not all(getattr(f, "process", None) is not None for f in futs):
+        time.sleep(0.02)
+    procs = [f.process for f in futs]
+    if any(p is None for p in procs):
+        raise MachineryError("registry scenario: the solver stand-ins did not start")
+    ExecutorRegistry().shutdown_all()
+    t1 = time.time()
+    while time.time() - t1 < 10 and any(p.poll() is None for p in procs):
+        time.sleep(0.05)
+    chk.count("traces_validated_against_impl")
+    chk.nontrivial(("registry-shutdown-all",))
+    problems = []
+    if not all(e.is_shutdown() for e in exs):
+        problems.append("an executor is not marked shut down")
+    if any(p.poll() is None for p in procs):
+        problems.append("a solver process is still running 10 s after the request returned")
+    for f in futs:
+        try:
+            f.result(timeout=5)
+        except Exception as e:  # noqa: BLE001
+            if type(e).__name__ == "TimeoutError":
+                problems.append("a job's outcome is not delivered (result() blocks)")
+    late = PopenFuture([sys.executable, "-c", "pass"], timeout=None)
+    try:
+        exs[0].submit(late)
+        problems.append("a job submitted after the shutdown request was accepted")
+    except ShutdownError:
+        pass
+    for p in procs:  # never leave processes behind, whatever was found
+        if p.poll() is None:
+            p.kill()
+    for e in exs:
+        e.shutdown(wait=False)
+    if problems:
+        chk.violation("real:registry-shutdown-all", "ExecutorRegistry().shutdown_all() after two executors were registered through ExecutorRegistry().register(): " + "; ".join(problems),
+                      {"problems": problems})
+
+
 def solve_phase(chk: Check, work: Path):
     from harness import exec_solve as xs
 
@@ -600,6 +656,7 @@ def run(chk: Check, tier: str):
             fut = bg.submit(tlc_run, tier, chk.seed, work / "tlc")
             timed("real_subprocesses", real_phase, chk, tier, work)
             timed("solve_low_level", solve_phase, chk, work)
+            timed("registry", registry_phase, chk)
             tags, results = fut.result()
             phases["tlc_total"] = round(time.time() - t0, 1)
         tl = tlc_account(chk, tags, results)
